@@ -6,7 +6,7 @@ CONSTANTS
   MaxThread = 2
   MaxSteps = 4
   Ideal = TRUE
-  ResumeFailed = FALSE
+  ResumeFailed = TRUE
   Emit = TRUE
 INVARIANTS EmitWalk
 CHECK_DEADLOCK FALSE
